@@ -9,7 +9,7 @@ if [ ! -d "$WT" ]; then git -C /repo worktree add --detach "$WT" HEAD >/dev/null
 cd "$WT" || exit 2
 git checkout -q --detach "$(git -C /repo rev-parse HEAD)" 2>/dev/null
 for D in "$@"; do
-  git checkout -q -- . ; git clean -fdq tests/ src/ examples/ 2>/dev/null
+  git reset -q --hard HEAD ; git clean -fdq tests/ src/ examples/ 2>/dev/null
   id=$(echo "$D" | sed -E 's#.*/(C[0-9]+)/([0-9]+)/?$#\1_\2#' | tr 'A-Z' 'a-z')
   name="seed_demo_$id"
   if [ ! -f "$D/demo.rs" ]; then echo "{\"candidate\":\"$D\",\"error\":\"no demo.rs\"}" > "$D/verify.json"; continue; fi
@@ -24,5 +24,5 @@ for D in "$@"; do
   summary=$(grep -E "^\s*Summary" "$D/v_suite_with.log" | tail -1 | sed 's/"/\\"/g')
   echo "{\"candidate\":\"$D\",\"head\":\"$(git rev-parse --short HEAD)\",\"demo_without_rc\":$rc_without,\"demo_with_rc\":$rc_with,\"suite_rc\":$rc_suite,\"suite_summary\":\"$summary\"}" > "$D/verify.json"
   cat "$D/verify.json"
-  git checkout -q -- . ; git clean -fdq tests/ src/ examples/ 2>/dev/null
+  git reset -q --hard HEAD ; git clean -fdq tests/ src/ examples/ 2>/dev/null
 done
